@@ -225,7 +225,7 @@ PARSER_CFG = """CONSTANTS
   LexSet = "%s"
   defaultInitValue = 0
 SPECIFICATION Spec
-INVARIANTS ProgramOrErrors PrefixRejected IllegalRejected CursorSane Gen
+INVARIANTS ProgramOrErrors PrefixRejected IllegalRejected SlotsOwned CursorSane Gen
 PROPERTIES Termination
 CHECK_DEADLOCK FALSE
 """
@@ -891,6 +891,8 @@ def selftest(args):
              "block / object loops as coded", r"Termination was violated"),
             ("MC_Parser", (PARSER_CFG % (2, "small")).replace("DevP2Intended", "DevP2Illegal").replace("Emit_ = TRUE", "Emit_ = FALSE"),
              "illegal token stepped over in a name position", r"Invariant IllegalRejected is violated"),
+            ("MC_Parser", (PARSER_CFG % (2, "small")).replace("DevP2Intended", "DevP2OneAhead").replace("Emit_ = TRUE", "Emit_ = FALSE"),
+             "one token of look-ahead after @component(...)", r"Invariant SlotsOwned is violated"),
         ]
         for mod, cfg, what, pat in devs:
             st = run.tlc(mod, cfg, name="Dev_" + mod, timeout=900, workers=4, expect_violation=True)
